@@ -3,6 +3,7 @@ import BoltonsVerif.C04.Model
 import BoltonsVerif.C04.Closed
 import BoltonsVerif.C04.View
 import BoltonsVerif.C04.Names
+import BoltonsVerif.C04.Win
 import BoltonsVerif.Generated.C04_Consts
 /-
 C04 line protocol.  Two kinds of line:
@@ -28,6 +29,7 @@ C04 line protocol.  Two kinds of line:
     output:  the tokens of `saverTrace`
   T <flags> <perms> <umask> <dest> <part> <raises> <sizes> closed   the same for a body that closes the part file
     output:  the tokens of `saverTraceClosed`
+  T ... nt                  (ninth word `nt`) the tokens of `saverTraceNt` (Windows publication step)
 
   P <dest base name, UTF-8 hex> <part_file: N = not given, else UTF-8 hex (`-` = empty string)>
     output:  ok <part file name, UTF-8 hex> | refused         (`C04.partName` with the regenerated suffix)
@@ -173,6 +175,14 @@ def handle (line : String) : String :=
       let t := saverTraceClosed cfg (mkFS dest part umask) (sizes.map fun n => (List.replicate n 1, 0))
       " ".intercalate (t.map showEv)
     | _, _, _, _, _, _ => "bad-op"
+  | ["T", flags, perms, umask, dest, part, raises, sizes, "nt"] =>
+    match flags.toList.map bit?, (if perms = "-" then some none else perms.toNat?.map some),
+          umask.toNat?, parseDest? dest, part.toList.map bit?, raises.toList.map bit?, natList? sizes with
+    | [some ow, some owp, some rm, some txt], some perms, some umask, some dest, [some part], [some raises], some sizes =>
+      let cfg : Cfg := ⟨ow, owp, rm, txt, perms⟩
+      let t := saverTraceNt cfg (mkFS dest part umask) ⟨sizes.map fun n => (List.replicate n 1, 0), raises⟩
+      " ".intercalate (t.map showEv)
+    | _, _, _, _, _, _, _ => "bad-op"
   | ["P", d, pf] =>
     match hexToString? d, (if pf = "N" then some none else (hexToString? pf).map some) with
     | some d, some pf =>
